@@ -117,7 +117,7 @@ def from_value_param(fn, v, argno, depth=0, seen=None):
     return False
 
 
-def run_family(mod, T, fname, triple, fi_ranges, cstr_end=None):
+def run_family(mod, T, fname, triple, fi_ranges, cstr_end=None, clear=()):
     """symbolic execution of the routine for one (base, exponent form, shortest form) context"""
     f = mod.fn(fname)
     emitters = emitter_functions(mod)
@@ -128,9 +128,10 @@ def run_family(mod, T, fname, triple, fi_ranges, cstr_end=None):
     st = sx.start(f, args, [-w, -p])
     # the upper-case bit only selects characters (rule R-UPPER): one value is enough for the layout; every other bit of
     # the directive word is left free (a superset of what the parser can produce)
-    b = Lin.sym(('ops', 'bit', T['upper'].bit_length() - 1))
-    st.cons.add_le(0, b)
-    st.cons.add_le(b, 0)
+    for m in (T['upper'],) + tuple(clear):
+        b = Lin.sym(('ops', 'bit', m.bit_length() - 1))
+        st.cons.add_le(0, b)
+        st.cons.add_le(b, 0)
     rets = sx.run_function(f, st)
     return sx, rets, (w, p)
 
